@@ -390,8 +390,8 @@ def run(analysis: Analysis, tier: str) -> RuleResult:
         classes = seen_sites.get((site, kind))
         ok = bool(classes) and "None" not in classes and None not in classes
         res.add("C07-R1", f"{site} / {kind} site is covered by the sleeping-node discipline on every path", ok, where, f"classes seen: {sorted(map(str, classes))}" if classes else "an outbound sink that no analysed root reaches or classifies: it is not covered by the sleeping-node discipline")
-    if len(sites) < 10:
-        raise AnalysisError(f"C07-R1: only {len(sites)} sink sites found, expected at least 10")
+    if len(sites) < 6:
+        raise AnalysisError(f"C07-R1: only {len(sites)} sink sites found, expected at least 6")
     container_freshness(analysis, res)
     # R6: "once a node has announced smart sleep": the sleeping test reads the node's desired-state map, which
     # only the wake-up announcement fills; nothing may empty or replace it afterwards
